@@ -21,9 +21,20 @@ import (
 func TestVerifC16RealTime(t *testing.T) {
 	logx.Disable()
 	timex.VerifClockOff()
-	ops := []string{"timex-now-follows-the-wall-clock"}
+	ops := []string{"timex-now-follows-the-wall-clock", "reentrant-use-as-modelled"}
 	if verifh.Thorough() {
-		ops = []string{"timex-now-follows-the-wall-clock", "cache-real-wheel-expires", "rollingwindow-real-clock"}
+		ops = []string{"timex-now-follows-the-wall-clock", "reentrant-use-as-modelled", "cache-real-wheel-expires", "rollingwindow-real-clock"}
+	}
+	// finishes(f): f returns within d (run on a goroutine of its own, which is left behind if it hangs)
+	finishes := func(d time.Duration, f func()) bool {
+		done := make(chan struct{})
+		go func() { defer close(done); defer func() { recover() }(); f() }()
+		select {
+		case <-done:
+			return true
+		case <-time.After(d):
+			return false
+		}
 	}
 	secs := []verifh.Section{{Cfg: "kind=c16-realtime", Ops: ops}}
 	verifh.Run(t, secs, func(cfg verifh.Cfg) (func(op []string) string, func()) {
@@ -41,6 +52,47 @@ func TestVerifC16RealTime(t *testing.T) {
 				}
 				if strings.Contains(time.Now().AddDate(-1, -1, -1).String(), " m=") {
 					return "AddDate kept the monotonic reading: update the RollingWindow assumption text"
+				}
+			case "reentrant-use-as-modelled":
+				// Characterisation of lean/GoZero/C16/Reent.lean on the real code (re-entrant use is outside the property's
+				// "sequences of operations"; the theorems say what the code does).  "hangs" = not finished after 300 ms -
+				// for a deadlock that is true at any machine load; "passes" = finished within 10 s.
+				m := NewSafeMap()
+				m.Set(1, 10)
+				m.Set(2, 20)
+				// range_callback_read_passes_without_writer
+				if !finishes(10*time.Second, func() {
+					m.Range(func(k, v any) bool { m.Get(k); m.Size(); return true })
+				}) {
+					return "a Get / Size from inside a Range callback hangs although no writer is pending: update Reent.lean"
+				}
+				// range_callback_write_deadlocks: the callback's Set waits for its own read lock, and nobody gets in any more
+				if finishes(300*time.Millisecond, func() {
+					m.Range(func(k, v any) bool { m.Set(3, 30); return false })
+				}) {
+					return "a Set from inside a Range callback returned: SafeMap.Range no longer holds the read lock over the callback - update Reent.lean and the lock frame"
+				}
+				if finishes(300*time.Millisecond, func() { m.Get(1) }) {
+					return "a Get behind a Range callback that waits in Set returned: sync.RWMutex let a reader pass a pending writer - update Reent.lean"
+				}
+				// take_reentrant_loader_deadlocks; a nested Take for another key starts its own call
+				c, err := NewCache(time.Minute)
+				if err != nil {
+					return "NewCache: " + err.Error()
+				}
+				defer c.timingWheel.Stop()
+				if !finishes(10*time.Second, func() {
+					c.Take("a", func() (any, error) { return c.Take("b", func() (any, error) { return 2, nil }) })
+				}) {
+					return "a loader that takes ANOTHER key hangs: update Reent.lean"
+				}
+				if finishes(300*time.Millisecond, func() {
+					c.Take("x", func() (any, error) { return c.Take("x", func() (any, error) { return 1, nil }) })
+				}) {
+					return "a loader that takes its OWN key returned: the barrier no longer makes it wait for itself - update Reent.lean"
+				}
+				if finishes(300*time.Millisecond, func() { c.Take("x", func() (any, error) { return 5, nil }) }) {
+					return "a Take of a key whose loader waits for itself returned: update Reent.lean"
 				}
 			case "cache-real-wheel-expires":
 				c, err := NewCache(time.Second, WithLimit(2))
